@@ -22,11 +22,13 @@ def run(chk):
     if not proved:
         broken.append("proof obligations of Props/C01.v do not check: " + plog[-800:])
     g = evalgen.Gen(chk.rng)
-    n = 40000 if thorough else 2400
+    n = 40000 if thorough else 3600
     cases = []
     for i in range(n):
         d = chk.rng.choice([1, 2, 2, 3, 3, 4] if not thorough else [2, 3, 3, 4, 4, 5])
-        cases.append((g.expr(d), evalgen.gen_doc(chk.rng)))
+        doc = evalgen.gen_doc(chk.rng)
+        g.set_doc(doc)          # selectors mostly follow the document, so most programs do not die at the first step
+        cases.append((g.expr(d), doc))
     impl, mism, err = run_cases(chk, cases, "c01_cases")
     stats = collections.Counter()
     opsh = collections.Counter()
